@@ -226,7 +226,7 @@ func check(c Case, r *vh.R) {
 		case "ser-setbyte":
 			mut[off] = m.Byte
 		}
-		e2, err := signedexchange.ReadExchange(bytes.NewReader(mut))
+		e2, err := signedexchange.ReadExchange(gen.Source(mut, gen.SourceModeOf(mut)))
 		if err != nil {
 			rejectedAtRead = true
 		} else {
